@@ -9,10 +9,12 @@ import (
 	"io"
 	"math/rand/v2"
 	"os"
+	"runtime"
 	"sort"
 	"strings"
 	"syscall"
 	"testing/iotest"
+	"time"
 
 	"github.com/ipfs/go-cid"
 	"github.com/ipld/go-ipld-prime/codec/dagcbor"
@@ -41,12 +43,14 @@ func init() {
 			"CAR section boundaries from ref.SplitCAR; for base64 CAR a cut is legitimate only where the decoded prefix ends on a section boundary",
 			"write faults return (0, err) or (n>0, err); short writes without error (an io.Writer contract violation) are not injected",
 		},
-		Shards:      shards(8, 16),
-		Run:         runC18,
-		MinEvals:    floor(40000, 450000),
-		MinDistinct: floor(20000, 400000),
+		Shards:          shards(8, 16),
+		RaceShards:      shards(1, 2),
+		RaceIsViolation: true,
+		Run:             runC18,
+		MinEvals:        floor(40000, 450000),
+		MinDistinct:     floor(20000, 400000),
 		RequiredCells: func(string) []string {
-			cells := []string{"chunk/one-byte", "chunk/half", "chunk/data-err", "chunk/random", "car/legit-boundary-cut", "write/final-flush-fault", "write/clean-call-after-faulted-call", "read/clean-call-after-faulted-calls", "write/bytes-equal-buffered", "write/cid-of-written-bytes"}
+			cells := []string{"purity/stream-reads/history", "purity/stream-reads/concurrent", "chunk/one-byte", "chunk/half", "chunk/data-err", "chunk/random", "car/legit-boundary-cut", "write/final-flush-fault", "write/clean-call-after-faulted-call", "read/clean-call-after-faulted-calls", "write/bytes-equal-buffered", "write/cid-of-written-bytes"}
 			for _, api := range []string{"token.FromSealedReader", "delegation.FromSealedReader", "invocation.FromSealedReader", "token.FromDagCborReader", "token.FromDagJsonReader", "token.DecodeReader", "container.FromCborReader", "container.FromCarReader", "container.FromCborBase64Reader", "container.FromCarBase64Reader"} {
 				cells = append(cells, "read-fault/"+api+"/err0", "read-fault/"+api+"/errN", "read-fault/"+api+"/cut")
 			}
@@ -343,6 +347,9 @@ func c18Artefacts(w *mon.W) []artefact {
 }
 
 func runC18(w *mon.W) {
+	if purityGate(w, c18Purity) {
+		return
+	}
 	r := w.Rng
 	arts := c18Artefacts(w)
 	apis := c18ReadAPIs()
@@ -743,4 +750,62 @@ func byteHistogram(b []byte) [256]int {
 		h[x]++
 	}
 	return h
+}
+
+// yieldReader hands its data out in pieces of 1..7 bytes and yields the processor (now and then
+// sleeps a little) before each piece: a slow network stream, during whose reads other
+// goroutines get to run.
+type yieldReader struct {
+	data []byte
+	pos  int
+	n    int
+}
+
+func (y *yieldReader) Read(p []byte) (int, error) {
+	if y.pos >= len(y.data) {
+		return 0, io.EOF
+	}
+	y.n++
+	if y.n%16 == 0 {
+		time.Sleep(20 * time.Microsecond)
+	} else {
+		runtime.Gosched()
+	}
+	k := 1 + (y.n*5)%7
+	if k > len(p) {
+		k = len(p)
+	}
+	if k > len(y.data)-y.pos {
+		k = len(y.data) - y.pos
+	}
+	copy(p, y.data[y.pos:y.pos+k])
+	y.pos += k
+	return k, nil
+}
+
+// c18Purity: the stream readers on slow streams, many at once (different artefacts, same
+// artefact): every read returns what it returns alone.
+func c18Purity(w *mon.W) {
+	arts := c18Artefacts(w)
+	apis := c18ReadAPIs()
+	var thunks []mon.Thunk
+	for ai, a := range arts {
+		if ai >= w.Pick(40, 80) || len(a.data) > 6000 {
+			continue
+		}
+		for _, api := range apis {
+			if api.kind != a.kind {
+				continue
+			}
+			a, api := a, api
+			thunks = append(thunks, mon.Thunk{Label: api.name, Desc: a.desc, F: func() string {
+				res := api.f(&yieldReader{data: a.data})
+				if res.err != nil {
+					return "error"
+				}
+				return fmt.Sprint(res.keys, res.flds)
+			}})
+		}
+	}
+	w.Purity("stream-reads", thunks, pG(w), pR(w))
 }
